@@ -26,18 +26,21 @@ func init() {
 		assumptions: append([]string{"header flags and extension length are zero (standard header); a field longer than the message limit L is not generated"}, commonAssumptions...)}})
 }
 
-var c14types = []uint32{pg.OIDBool, pg.OIDInt2, pg.OIDInt4, pg.OIDInt8, pg.OIDFloat4, pg.OIDFloat8, pg.OIDText, pg.OIDVarchar, pg.OIDBytea, pg.OIDUUID, pg.OIDOid, pg.OIDDate, pg.OIDTimestamp, pg.OIDTimestamptz, pg.OIDInt4Array, pg.OIDTextArray}
+var c14types = []uint32{pg.OIDBool, pg.OIDInt2, pg.OIDInt4, pg.OIDInt8, pg.OIDFloat4, pg.OIDFloat8, pg.OIDText, pg.OIDVarchar, pg.OIDBytea, pg.OIDUUID, pg.OIDOid, pg.OIDDate, pg.OIDTimestamp, pg.OIDTimestamptz, pg.OIDInt4Array, pg.OIDTextArray, pg.OIDBit, pg.OIDVarbit}
 
 type c14table struct {
-	OIDs    []uint32
-	Rows    [][]any
-	Trailer bool
+	OIDs     []uint32
+	Rows     [][]any
+	Trailer  bool
+	NoHeader bool // the stream starts with the first row (the file header is optional for the row reader)
 }
 
 var c14header = append([]byte("PGCOPY\n\377\r\n\000"), 0, 0, 0, 0, 0, 0, 0, 0)
 
 func (t c14table) encode() (stream []byte, rowEnds []int) {
-	stream = append(stream, c14header...)
+	if !t.NoHeader {
+		stream = append(stream, c14header...)
+	}
 	for _, r := range t.Rows {
 		stream = binary.BigEndian.AppendUint16(stream, uint16(len(r)))
 		for i, v := range r {
@@ -216,6 +219,13 @@ func c14rowEq(oids []uint32, got, want []any) string {
 		}
 		if got[i] == nil {
 			return fmt.Sprintf("field %d: value decoded as NULL", i)
+		}
+		if b, ok := got[i].(pgtype.Bits); ok && b.Valid && int(b.Len) <= 8*len(b.Bytes) {
+			d := make([]byte, b.Len)
+			for k := range d {
+				d[k] = '0' + b.Bytes[k/8]>>(7-k%8)&1
+			}
+			got[i] = pg.BitString(d)
 		}
 		if g, w := pg.Canon(oids[i], got[i]), pg.Canon(oids[i], want[i]); g != w {
 			return fmt.Sprintf("field %d (oid %d): got %s want %s", i, oids[i], trim(g, 80), trim(w, 80))
